@@ -22,6 +22,7 @@ from .read import HEADER_SCHEMA, SYNC_SIZE, MAGIC, reader
 from .logical_writers import LOGICAL_WRITERS
 from .schema import extract_record_type, extract_logical_type, parse_schema
 from ._write_common import _is_appendable
+from ._schema_common import default_datum
 from .types import Schema, NamedSchemas
 
 
@@ -261,7 +262,12 @@ def write_record(encoder, datum, schema, named_schemas, fname, options):
                 )
             elif "default" not in field and not _accepts_null(field_type):
                 raise ValueError(f"no value and no default for {name}")
-        datum_value = datum.get(name, field.get("default"))
+        if name in datum:
+            datum_value = datum[name]
+        elif "default" in field:
+            datum_value = default_datum(field_type, field["default"], named_schemas)
+        else:
+            datum_value = None
         if field_type == "float" or field_type == "double":
             # Handle float values like "NaN"
             datum_value = float(datum_value)
